@@ -76,7 +76,13 @@ int main() {
     if (t[0] == "S" && t.size() >= 2) {
       tN2kMsg M; fresh(M);
       std::vector<std::string> a(t.begin() + 2, t.end()); std::string o;
-      if (call_fn(fid_of_name(t[1]), a, M, o)) res = "k" + t[1] + " " + show_msg(M); else res = "badcase";
+      if (call_fn(fid_of_name(t[1]), a, M, o)) {
+        res = "k" + t[1] + " " + show_msg(M);
+        // the same long-lived message object filled again (the pattern of a periodic sender): a setter starts from an empty message
+        // whatever the object held, so the second result must equal the first (the model has no such history: a difference shows as a disagreement)
+        std::string first = show_msg(M), o2;
+        if (call_fn(fid_of_name(t[1]), a, M, o2) && show_msg(M) != first) res += " | refilled " + show_msg(M);
+      } else res = "badcase";
     } else if (t[0] == "B" && t.size() == 4) {
       // N2kSetStatusBinaryOnStatus / N2kGetStatusOnBinaryStatus (bank status of PGN 127501): B <bank hex> <status 0..3> <item index>
       tN2kBinaryStatus b = strtoull(t[1].c_str(), 0, 16);
